@@ -168,10 +168,14 @@ impl BuiltInFunction {
                     unreachable!()
                 };
 
+                let additional: usize = (*size).try_into().with_context(|| {
+                    format!("additional vector capacity `{size}` could not fit in an int (i32)")
+                })?;
+
+                // `reserve` aborts the process when the allocation fails: report it instead
                 v.0.borrow_mut()
-                    .reserve((*size).try_into().with_context(|| {
-                        format!("additional vector capacity `{size}` could not fit in an int (i32)")
-                    })?);
+                    .try_reserve(additional)
+                    .map_err(|e| anyhow::anyhow!("could not reserve room for `{size}` more elements: {e}"))?;
 
                 Ok((None, None))
             }
